@@ -36,6 +36,8 @@ def feasible_ctx_kinds(rows, for_query, contextual_series_ok):
     kinds = ["list", "ndarray_c", "ndarray_f", "strided", "transposed", "dataframe", "ndarray_float"]
     if all(float(v).is_integer() for r in rows for v in r):
         kinds += ["ndarray_int", "ndarray_int8", "ndarray_int32"]
+        if all(v >= 0 for r in rows for v in r):
+            kinds += ["ndarray_uint8", "ndarray_uint16"]
     kinds.append("ndarray_float32")       # grid values are exactly representable
     if contextual_series_ok and ((d == 1) or (n == 1 and d > 1)):
         kinds.append("series")
@@ -56,7 +58,7 @@ def render_ctx(rows, kind):
         return np.array(rows, dtype=np.int64)
     if kind == "ndarray_float":
         return np.array(rows, dtype=np.float64)
-    if kind in ("ndarray_int8", "ndarray_int32", "ndarray_float32"):
+    if kind in ("ndarray_int8", "ndarray_int32", "ndarray_float32", "ndarray_uint8", "ndarray_uint16"):
         return np.array(rows, dtype=getattr(np, kind.split("_")[1]))
     if kind == "strided":
         big = np.zeros((a.shape[0] * 2, a.shape[1] * 2), dtype=a.dtype)
@@ -94,7 +96,7 @@ def render_vec(v, kind):
 def plan_st(draw, tier):
     cfg = draw(gen.config_st(arm_kinds=("int", "str", "float"), max_arms=4, with_binarizer=True, scale_ok=True,
                              defaults_ok=True))
-    h = gen.History(draw, cfg, max_rows=7, exact_only=True, grid=draw(st.sampled_from(["int", "half"])))
+    h = gen.History(draw, cfg, max_rows=7, exact_only=True, grid=draw(st.sampled_from(["int", "half", "nonneg"])))
     h.fit() if draw(st.integers(0, 3)) else h.partial_fit()
     for _ in range(draw(st.integers(1, 7))):
         gen.step_any(h, gen.TRAIN_KINDS + gen.ARM_KINDS + gen.QUERY_KINDS * 3 + gen.WARM_KINDS)
